@@ -67,6 +67,7 @@ func cmdFunc(args []string) {
 	timeout := fs.Int("timeout", 10, "solver timeout (s)")
 	dump := fs.String("dump", "", "directory for SMT scripts of non-discharged obligations")
 	verbose := fs.Bool("v", false, "print all obligations")
+	dumpName := fs.String("dumpname", "", "dump obligations whose name contains this")
 	fs.Parse(args)
 	w := loadOrDie(*repo)
 	for _, e := range w.CheckContractsResolve() {
@@ -83,6 +84,10 @@ func cmdFunc(args []string) {
 		t0 := time.Now()
 		r := w.VerifyFunction(t.Pk, t.Fn, t.Fc)
 		gen := time.Since(t0).Seconds()
+		if *dumpName != "" {
+			dumpObligation(r, *dumpName, *dump)
+			continue
+		}
 		SolveAll(r.Obls, *timeout, runtime.NumCPU(), *dump != "")
 		nd := 0
 		for _, ob := range r.Obls {
@@ -111,20 +116,7 @@ func cmdFunc(args []string) {
 			if !ok {
 				fmt.Printf("            clause: %s   (%s)\n", ob.Text, ob.Pos)
 				if ob.Result.Status == "sat" {
-					var ks []string
-					for k := range ob.Result.Model {
-						if strings.HasPrefix(k, "p.") || strings.HasPrefix(k, "cfg.") {
-							ks = append(ks, k)
-						}
-					}
-					sort.Strings(ks)
-					for _, k := range ks {
-						v := ob.Result.Model[k]
-						if len(v) > 200 {
-							v = v[:200] + "..."
-						}
-						fmt.Printf("            %s = %s\n", k, v)
-					}
+					fmt.Printf("            model: %s\n", renderModel(ob.Result.Model))
 				}
 				if *dump != "" {
 					os.MkdirAll(*dump, 0o755)
@@ -150,3 +142,61 @@ func okResult(ob *Obligation) bool {
 	return ob.Result.Status == "unsat"
 }
 
+
+// renderModel prints a counterexample compactly: byte sequences as quoted strings.
+func renderModel(m map[string]string) string {
+	seqs := map[string]map[int]int{}
+	lens := map[string]int{}
+	var scal []string
+	for k, v := range m {
+		if i := strings.LastIndex(k, "["); i > 0 && strings.HasSuffix(k, "]") {
+			var idx int
+			fmt.Sscanf(k[i+1:], "%d", &idx)
+			if seqs[k[:i]] == nil {
+				seqs[k[:i]] = map[int]int{}
+			}
+			n, _ := smtInt(v)
+			seqs[k[:i]][idx] = int(n.Int64())
+			continue
+		}
+		if strings.HasSuffix(k, ".len") {
+			n, _ := smtInt(v)
+			lens[strings.TrimSuffix(k, ".len")] = int(n.Int64())
+		}
+		n, ok := smtInt(v)
+		if ok {
+			scal = append(scal, fmt.Sprintf("%s=%s", k, n.String()))
+		} else {
+			scal = append(scal, fmt.Sprintf("%s=%s", k, v))
+		}
+	}
+	sort.Strings(scal)
+	var out []string
+	var names []string
+	for n := range seqs {
+		names = append(names, n)
+	}
+	sort.Strings(names)
+	for _, n := range names {
+		l := lens[n]
+		if l > modelBytes {
+			l = modelBytes
+		}
+		b := make([]byte, 0, l)
+		for i := 0; i < l; i++ {
+			b = append(b, byte(seqs[n][i]))
+		}
+		out = append(out, fmt.Sprintf("%s=%q", n, string(b)))
+	}
+	return strings.Join(append(out, scal...), " ")
+}
+
+// dumpObligation writes the script of the named obligation (debugging).
+func dumpObligation(r *FuncResult, name, dir string) {
+	for _, ob := range r.Obls {
+		if strings.Contains(ob.Name, name) {
+			os.MkdirAll(dir, 0o755)
+			os.WriteFile(filepath.Join(dir, sanitize(ob.Name)+".smt2"), []byte(ob.Script(true)), 0o644)
+		}
+	}
+}
